@@ -83,6 +83,13 @@ def run(tier, seed):
                     nontrivial.add((nm, L, "triple"))
                     if a > b + c + 1e-9 * max(abs(a), abs(b), abs(c), 1.0):
                         bad("triangle_inequality_violated", {"x": x, "y": y, "z": z, "d_xz": a, "d_xy": b, "d_yz": c})
+                # consecutive triples of the pool (the chains of nearly equal vectors sit next to each other)
+                for k_ in range(len(vs) - 2):
+                    x, y, z = vs[k_], vs[k_ + 1], vs[k_ + 2]
+                    a, b, c = f(x, z), f(x, y), f(y, z)
+                    nev += 3
+                    if a > b + c + 1e-9 * max(abs(a), abs(b), abs(c), 1.0):
+                        bad("triangle_inequality_violated", {"x": x, "y": y, "z": z, "d_xz": a, "d_xy": b, "d_yz": c})
                 # degenerate triples (x, y, x) over neighbouring vectors of the pool (the near-identical histograms sit next to each
                 # other): d(x, x) <= d(x, y) + d(y, x) - a self-distance that is only "nearly" zero shows here
                 for k_ in range(len(vs) - 1):
